@@ -266,6 +266,17 @@ def catalogue(rng, W, tier):
     ops.append(Op("async-http-sign", "drv_net", async_http_op, None, "net_async/net_http_curl_async"))
     ops.append(Op("async-sign", "drv_net", lambda s: async_op(s, False), None, "net_async/net_tcp_async"))
     ops.append(Op("ha-sign", "drv_net", lambda s: async_op(s, True), None, "net_ha"))
+    def bs_ops(s):
+        """block signer with blinding masks and metadata: three leaves are added (each runs the leaf processors: mask node, metadata node, joins), then the
+        signer is reset and one more leaf added -- a refused leaf must leave the signer usable and nothing freed twice"""
+        prev0 = ksi.imprint(1, b"c19-prev"); iv = b"c19-iv-0123456789abcdef0123456789"
+        r = [norm(s.cmd("BSNEW 1 %s %s" % (prev0.hex(), iv.hex())))]
+        for k, (lvl, md) in enumerate([(0, "-"), (2, "-"), (0, "-")]):      # (masks only: see finding F-C19-13 for what a refused leaf leaves behind)
+            r.append(norm(s.cmd("BSADD %s %d %s" % (ksi.imprint(1, b"c19-leaf-%d" % k).hex(), lvl, md))))
+        r.append(norm(s.cmd("BSRESET")))
+        r.append(norm(s.cmd("BSADD %s 0 -" % ksi.imprint(1, b"c19-leaf-x").hex())))
+        return "|".join(r)
+    ops.append(Op("block-signer-leaves", "drv_net", bs_ops, None, "blocksigner/tree_builder"))
     def obj_ops(s):
         r = [norm(s.cmd("OPARSE 0 " + sig_pub)), norm(s.cmd("OCLONE 1 0")), norm(s.cmd("OSER 1"))[:60], norm(s.cmd("OLEVEL 2 0 0"))]
         for k in range(3): s.cmd("OFREE %d" % k)
